@@ -1,10 +1,15 @@
 #!/bin/bash
-# usage: tools/runseed.sh <seed-name> <property> [tier]  -- applies a kept change to /repo, runs the check, undoes it
+# usage: tools/runseed.sh <seed-name> <property> [tier]
+# Applies a kept change to a scratch copy of /repo (outside /repo and /verif, removed afterwards), runs the
+# registered check against that copy and prints its verdict. /repo itself is never touched.
 name="$1"; prop="$2"; tier="${3:-quick}"
 cd /verif
-if [ -n "$(git -C /repo status --porcelain)" ]; then echo "refusing: /repo has uncommitted changes (they would be lost by the undo step)"; exit 4; fi
-git -C /repo apply /verif/seeded/$name/patch.diff || { echo "patch does not apply to /repo HEAD"; exit 3; }
-VERIF_EVIDENCE_OUT=/tmp/runseed-evidence.json ./check $prop --tier $tier > /tmp/runseed.out 2>&1; rc=$?
-git -C /repo checkout -- . 
-grep -E "^(VIOLATION|UNDECIDED|KNOWN-FINDING|property=)" /tmp/runseed.out | cut -c1-300
+scratch=$(mktemp -d /tmp/seedrun-XXXXXX)
+rsync -a --exclude .git /repo/ $scratch/
+if ! (cd $scratch && patch -p1 -s --no-backup-if-mismatch < /verif/seeded/$name/patch.diff); then echo "patch does not apply to the current /repo tree"; rm -rf $scratch; exit 3; fi
+out=$(mktemp /tmp/runseed-XXXXXX.out)
+VERIF_REPO=$scratch VERIF_EVIDENCE_OUT=$scratch.evidence.json ./check $prop --tier $tier > $out 2>&1; rc=$?
+rm -rf $scratch $scratch.evidence.json
+grep -E "^(VIOLATION|UNDECIDED|KNOWN-FINDING|property=)" $out | cut -c1-300
+rm -f $out
 echo "exit=$rc"
